@@ -46,7 +46,19 @@ Deterministic(r) == \A i, j \in 1..Len(r.runs) : r.runs[i].max = r.runs[j].max =
 \* a failing run fails by the limit, not otherwise
 FailKind(r) == \A i \in 1..Len(r.runs) : r.runs[i].res \in {"ok", "err:mem"}
 
+\* unaccounted state: live heap of the process after the last write of a long stream in which nothing stays open or
+\* buffered (runs that record nothing) may exceed the heap right after construction by M plus a fixed slack
+HeapSlack == 65536
+\* known finding S21: with an :nth-of-type selector registered the typed child counters keep one entry per distinct
+\* element name among the children of an open element (here: the root), outside the limiter -- at most ~170 bytes each
+HeapVerdict(h) ==
+  IF h.res # "ok" THEN "C10: a stream that keeps nothing open or buffered failed under a 16 KiB limit: " \o h.res
+  ELSE IF h.growth <= h.max + HeapSlack THEN "ok"
+  ELSE "C10: the live heap of the rewriter grows with the length of the stream although the accounted usage stays within M"
+       \o (IF h.nthoftype /\ h.growth <= h.names * 170 + h.max + HeapSlack THEN " [signature:S21]" ELSE "")
+
 Verdict(r) ==
+  IF "heap" \in DOMAIN r THEN HeapVerdict(r.heap) ELSE
   LET v == RunsBad(r, 1) IN
   IF v # "ok" THEN v
   ELSE IF ~FailKind(r) THEN "C10: a run under a memory limit failed with something other than MemoryLimitExceeded"
